@@ -22,6 +22,7 @@ type KillEv struct {
 }
 
 type Inst struct {
+	ExecTask int   // task that launched it
 	Kind    string // simproc simprobe simstop simenv
 	Token   string
 	Replica string // replica name for simproc tokens ("" if unknown)
@@ -160,7 +161,7 @@ func BuildTruth(sc *Scenario, log *simlog.Log) *Truth {
 			if j := strings.IndexByte(tok, ':'); j > 0 && strings.HasPrefix(tok, "sim") {
 				kind, tok = tok[:j], tok[j+1:]
 			}
-			in := &Inst{Kind: kind, Token: tok, Pid: e.Pid, Pgid: e.N, ExecSeq: e.Seq, ExitSeq: -1, ReapSeq: -1, ExecT: e.T, Args: e.A, Dir: e.B}
+			in := &Inst{ExecTask: e.Task, Kind: kind, Token: tok, Pid: e.Pid, Pgid: e.N, ExecSeq: e.Seq, ExitSeq: -1, ReapSeq: -1, ExecT: e.T, Args: e.A, Dir: e.B}
 			if env, ok := e.Data.([]string); ok {
 				in.Env = env
 			}
